@@ -341,3 +341,138 @@ Example C18_example_sets :
                  [Nub]; [Strand; Slice; Slice]; [Strand]; [Strand; Nub]] /\
   rrun_state r0 ops 0 = 0 /\ rrun_state r0 ops 4 = 0.
 Proof. vm_compute. repeat split; reflexivity. Qed.
+
+(*BEGIN GenAgreeCube_C18*)
+(* ------------------------------------------------------------------------------------ *)
+(* SOURCE TEXT of src/cr/cube/cube.py.  Gen/CubeSrc.v is regenerated on every check by
+   harness/translate/x_cube.py (shallow translation: every member of CubeSet / Cube / _Measures / the
+   _BaseMeasure family, inheritance flattened, as a Gallina function over the Python-semantics combinators
+   of Base/PyList.v + Base/PyJson.v + Model/PyCube.v; [X] = what cube.py calls in other modules -
+   Dimensions.from_dicts, json.loads - as parameters; `self.<member>` = the generated function of that
+   member).  For ALL inputs each generated function IS the model definition the theorems above are about;
+   a statement `match src_f, src_g with Some f, Some g => forall .., g X c = POk v -> ..` reads: whenever
+   the member g of the same object evaluates to v.  [None] = the member is outside the translator's
+   whitelist (then only the correspondence ties it). *)
+From CC Require Proofs.GenAgreeCubeLib Proofs.GenAgreeCubeAugment Proofs.GenAgreeCubeBase Proofs.GenAgreeCubeHistory Proofs.GenAgreeCubeRebuild Proofs.GenAgreeCubeSet.
+Section GenAgreeCube_C18.   (* scopes and imports below end with the section *)
+Import Coq.Lists.List Coq.ZArith.ZArith Coq.QArith.QArith Coq.Strings.String Coq.Bool.Bool CC.Base.XQ
+       CC.Base.PyList CC.Base.PyJson CC.Spec.Survey CC.Model.CubeCounts CC.Model.DimType CC.Model.Population
+       CC.Model.Partition CC.Model.PyCube CC.Gen.CubeSrc CC.Proofs.GenAgreeCubeLib CC.Proofs.GenAgreeCubeAugment CC.Proofs.GenAgreeCubeBase CC.Proofs.GenAgreeCubeHistory CC.Proofs.GenAgreeCubeRebuild CC.Proofs.GenAgreeCubeSet.
+Import Coq.Lists.List.ListNotations.
+Local Close Scope Q_scope.
+Local Open Scope Z_scope.
+Local Open Scope string_scope.
+
+Theorem C18_cube_inflated_response_spec :
+  forall top res dimsj alias name,
+  exists top' res',
+    inflated_response top res dimsj alias name = JDict top' /\
+    dget top' "result" = Some (JDict res') /\
+    dget res' "dimensions" = Some (JList (rows_dimension_json alias name :: dimsj)) /\
+    (forall k, k <> "result" -> dget top' k = dget top k) /\
+    (forall k, k <> "dimensions" -> dget res' k = dget res k).
+Proof. exact cube_inflated_response_spec. Qed.
+Print Assumptions C18_cube_inflated_response_spec.
+
+Theorem C18_cube_augmented_response_spec :
+  forall top res ms cm dim0 ty0 drest data cdata sels,
+  exists top' res' ms' cm' dim0' ty0',
+    augmented_response top res ms cm dim0 ty0 drest data cdata sels = JDict top' /\
+    dget top' "result" = Some (JDict res') /\
+    dget res' "counts" = Some (JList data) /\
+    dget res' "measures" = Some (JDict ms') /\ dget ms' "count" = Some (JDict cm') /\
+    dget cm' "data" = Some (JList cdata) /\
+    dget res' "dimensions" = Some (JList (JDict dim0' :: drest)) /\
+    dget dim0' "type" = Some (JDict ty0') /\ dget ty0' "elements" = Some (JList sels) /\
+    (forall k, k <> "result" -> dget top' k = dget top k) /\
+    (forall k, k <> "counts" -> k <> "measures" -> k <> "dimensions" -> dget res' k = dget res k) /\
+    (forall k, k <> "count" -> dget ms' k = dget ms k) /\
+    (forall k, k <> "data" -> dget cm' k = dget cm k) /\
+    (forall k, k <> "type" -> dget dim0' k = dget dim0 k) /\
+    (forall k, k <> "elements" -> dget ty0' k = dget ty0 k).
+Proof. exact cube_augmented_response_spec. Qed.
+Print Assumptions C18_cube_augmented_response_spec.
+
+Theorem C18_gen_cube_Cube___init__ :
+  match src_Cube___init__ with
+  | Some f => forall resp idx tr pop mask,
+      f resp idx tr pop mask
+      = mkPyCube resp (if json_is_none tr then JDict [] else tr) idx
+                 (if json_is_none pop then JInt 0 else pop) mask
+  | None => True end.
+Proof. exact gen_cube_Cube___init__. Qed.
+Print Assumptions C18_gen_cube_Cube___init__.
+
+Theorem C18_gen_cube_Cube__cube_response :
+  match src_Cube__cube_response with
+  | Some f => forall X arg tr idx pop mask,
+      f X (mkPyCube arg tr idx pop mask) = parsed_response X arg
+  | None => True end.
+Proof. exact gen_cube_Cube__cube_response. Qed.
+Print Assumptions C18_gen_cube_Cube__cube_response.
+
+Theorem C18_cube_parsed_response_dict :
+  forall (R : Type) (body : R -> list (string * json)), (forall r, dget (body r) "value" = None) ->
+  forall X j, parsed_response X (rjson_json body j)
+              = POk (rjson_json body (History.cube_response (History.ArgDict j))).
+Proof. exact cube_parsed_response_dict. Qed.
+Print Assumptions C18_cube_parsed_response_dict.
+
+Theorem C18_cube_parsed_response_text :
+  forall (R : Type) (body : R -> list (string * json)), (forall r, dget (body r) "value" = None) ->
+  forall X s j, x_json_loads X s = POk (rjson_json body j) ->
+    parsed_response X (JStr s) = POk (rjson_json body (History.cube_response (History.ArgText j))).
+Proof. exact cube_parsed_response_text. Qed.
+Print Assumptions C18_cube_parsed_response_text.
+
+Theorem C18_gen_cube_Cube_inflate :
+  match src_Cube_inflate, src_Cube__cube_response, src_Cube__numeric_array_dimension,
+        src_Cube__available_numeric_measures, src_Cube__numeric_measure_references with
+  | Some f, Some g1, Some g2, Some g3, Some g4 => forall X c top res dimsj numdim nums refs,
+      g1 X c = POk (JDict top) -> dget top "result" = Some (JDict res) ->
+      dget res "dimensions" = Some (JList dimsj) ->
+      g2 X c = POk numdim -> g3 X c = POk nums -> g4 X c = POk (JDict refs) ->
+      f X c = match inflate_name refs nums with
+              | Some name =>
+                  POk (rebuilt_cube c (if json_truthy numdim then JDict top
+                                       else inflated_response top res dimsj (inflate_alias refs nums) name))
+              | None => PErr EAttr
+              end
+  | _, _, _, _, _ => True end.
+Proof. exact gen_cube_Cube_inflate. Qed.
+Print Assumptions C18_gen_cube_Cube_inflate.
+
+Theorem C18_gen_cube_Cube_augment_response :
+  match src_Cube_augment_response, src_Cube__cube_response with
+  | Some f, Some g => forall X c top res cs dim0 drest ty0 oels ms cm cd stop sres scs sdim0 sdrest sty0 sels,
+      g X c = POk (JDict top) -> dget top "result" = Some (JDict res) ->
+      dget res "counts" = Some (JList cs) -> dget res "dimensions" = Some (JList (JDict dim0 :: drest)) ->
+      dget dim0 "type" = Some (JDict ty0) -> dget ty0 "elements" = Some (JList oels) ->
+      dget res "measures" = Some (JDict ms) -> dget ms "count" = Some (JDict cm) ->
+      dget cm "data" = Some (JList cd) ->
+      dget stop "result" = Some (JDict sres) -> dget sres "counts" = Some (JList scs) ->
+      dget sres "dimensions" = Some (JList (JDict sdim0 :: sdrest)) ->
+      dget sdim0 "type" = Some (JDict sty0) -> dget sty0 "elements" = Some (JList sels) ->
+      f X c (JDict stop) =
+      if Z.eqb (py_len cs) (py_len scs) then POk c else
+      pbind (aug_values oels) (fun values => pbind (aug_positions sels values) (fun positions =>
+      pbind (aug_fill (py_len scs) positions cs) (fun data =>
+      pbind (aug_fill (py_len scs) positions cd) (fun cdata =>
+      POk (rebuilt_cube c (augmented_response top res ms cm dim0 ty0 drest data cdata sels))))))
+  | _, _ => True end.
+Proof. exact gen_cube_Cube_augment_response. Qed.
+Print Assumptions C18_gen_cube_Cube_augment_response.
+
+Theorem C18_gen_cube_CubeSet__cubes :
+  match src_CubeSet__cubes, src_CubeSet__is_multi_cube, src_CubeSet__is_numeric_measure,
+        src_Cube__cube_response, src_Cube_is_single_filter_col_cube, src_Cube_augment_response,
+        src_Cube_inflate with
+  | Some f, Some gm, Some gn, Some gR, Some gS, Some gA, Some gI => forall X s multi numeric,
+      gm X s = POk multi -> gn X s = POk numeric ->
+      f X s = cubeset_loop (gR X) (gS X) (gA X) (gI X) multi numeric s None 0 (cs_cube_responses s)
+  | _, _, _, _, _, _, _ => True end.
+Proof. exact gen_cube_CubeSet__cubes. Qed.
+Print Assumptions C18_gen_cube_CubeSet__cubes.
+
+End GenAgreeCube_C18.
+(*END GenAgreeCube_C18*)
